@@ -93,6 +93,13 @@ package rtp
 //@   ensures len(ghostSeq(h264dp.w, "emitted")) == old(len(ghostSeq(h264dp.w, "emitted"))) + 1 ==> ghostSeq(h264dp.w, "emitted")[old(len(ghostSeq(h264dp.w, "emitted")))] == frame
 //@   ensures forall(i, 0, old(len(ghostSeq(h264dp.w, "emitted"))), ghostSeq(h264dp.w, "emitted")[i] == old(ghostSeq(h264dp.w, "emitted")[i]))
 //@   ensures sameSlice(frame.Payload, old(frame.Payload)) && h264dp.meta == old(h264dp.meta) && h264dp.w == old(h264dp.w)
+// containment (C07): once the stream's parameter sets made the converter ready it stays ready, and the parameter sets it
+// became ready with are kept - no later unit (e.g. a truncated in-band SPS) can switch conversion off again; a ready
+// converter hands every unit except filler data to the frame writer
+//@   ensures old(h264dp.metaReady) ==> h264dp.metaReady
+//@   ensures old(len(h264dp.meta.Sps)) > 0 ==> sameSlice(h264dp.meta.Sps, old(h264dp.meta.Sps))
+//@   ensures old(len(h264dp.meta.Pps)) > 0 ==> sameSlice(h264dp.meta.Pps, old(h264dp.meta.Pps))
+//@   ensures old(h264dp.metaReady) && old(frame.Payload[0])&0x1f != 12 ==> len(ghostSeq(h264dp.w, "emitted")) == old(len(ghostSeq(h264dp.w, "emitted"))) + 1
 
 //@ func (h264dp *h264Depacketizer) depacketizeStapa(packet *Packet) (err error)
 //@   requires h264OK(h264dp) && videoPacket(packet) && payloadLen(packet) >= 3
@@ -278,6 +285,11 @@ package rtp
 //@   ensures len(ghostSeq(h265dp.w, "emitted")) == old(len(ghostSeq(h265dp.w, "emitted"))) + 1 ==> ghostSeq(h265dp.w, "emitted")[old(len(ghostSeq(h265dp.w, "emitted")))] == frame
 //@   ensures forall(i, 0, old(len(ghostSeq(h265dp.w, "emitted"))), ghostSeq(h265dp.w, "emitted")[i] == old(ghostSeq(h265dp.w, "emitted")[i]))
 //@   ensures sameSlice(frame.Payload, old(frame.Payload)) && h265dp.meta == old(h265dp.meta) && h265dp.w == old(h265dp.w)
+//@   ensures old(h265dp.metaReady) ==> h265dp.metaReady
+//@   ensures old(len(h265dp.meta.Vps)) > 0 ==> sameSlice(h265dp.meta.Vps, old(h265dp.meta.Vps))
+//@   ensures old(len(h265dp.meta.Sps)) > 0 ==> sameSlice(h265dp.meta.Sps, old(h265dp.meta.Sps))
+//@   ensures old(len(h265dp.meta.Pps)) > 0 ==> sameSlice(h265dp.meta.Pps, old(h265dp.meta.Pps))
+//@   ensures old(h265dp.metaReady) ==> len(ghostSeq(h265dp.w, "emitted")) == old(len(ghostSeq(h265dp.w, "emitted"))) + 1
 
 //@ func (h265dp *h265Depacketizer) depacketizeStap(packet *Packet) (err error)
 //@   requires h265OK(h265dp) && videoPacket(packet) && payloadLen(packet) >= 3
